@@ -1,20 +1,26 @@
 #!/usr/bin/env python3
-"""Regenerates bx/clauses.json (unit -> clause texts) by scanning the bounded-unit sources for
-rep.clause("...") / rep.declare("...") literals, so `check` knows which units serve a property
-without running them."""
-import json, os, re, tomllib
+"""Regenerates bx/clauses.json: for every bounded unit the list of contract clauses it evaluates at quick
+settings (observed by running the unit on the current /repo tree).  `check` uses the list (a) to know which
+units serve a property without running all of them and (b) as the vacuity guard: a listed clause that a
+later run no longer evaluates is reported as undecided, never as a pass."""
+import json, os, shutil, subprocess, sys, tempfile, tomllib
 V = os.path.dirname(os.path.dirname(os.path.abspath(__file__)))
-src_of = {'bx_writer': ['bx/verif_bx_writer.rs'], 'bx_iter': ['bx/verif_bx_iter.rs'], 'bx_path': ['bx/verif_bx_path.rs'], 'bx_spec': ['bx/verif_bx_spec.rs']}
+sys.path.insert(0, V)
+from vlib import overlay, engines
 units = tomllib.load(open(os.path.join(V, 'bx', 'units.toml'), 'rb')).get('unit', [])
-out = {}
-for u in units:
-    cl = {}
-    for f in u.get('sources', src_of.get(u['name'], [])):
-        txt = open(os.path.join(V, f)).read()
-        for m in re.finditer(r'rep\.(?:clause|declare)\(\s*"((?:[^"\\]|\\.)*)"', txt):
-            c = m.group(1)
-            only = u.get('clause_prefix')
-            cl[c] = True
-    out[u['name']] = cl
-json.dump(out, open(os.path.join(V, 'bx', 'clauses.json'), 'w'), indent=1)
-print({k: len(v) for k, v in out.items()})
+scratch = tempfile.mkdtemp(prefix='verif-bxclauses-')
+try:
+    ov = os.path.join(scratch, 'ov')
+    overlay.build(ov)
+    ok, exe = engines.build_native(ov, 'verif_replay', os.path.join(scratch, 'b.log'), release=True)
+    assert ok, open(os.path.join(scratch, 'b.log')).read()[-3000:]
+    out = {}
+    for u in units:
+        p = subprocess.run([exe, '--bx', u['name']] + u['args_quick'], capture_output=True, text=True)
+        d = json.loads([l for l in p.stdout.split('\n') if l.startswith('{')][-1])
+        out[u['name']] = {c: st['checked'] for c, st in sorted(d['clauses'].items())}
+        bad = {c: st for c, st in d['clauses'].items() if st['failed']}
+        print(u['name'], len(out[u['name']]), 'clauses', 'FAILING: %s' % bad if bad else '')
+    json.dump(out, open(os.path.join(V, 'bx', 'clauses.json'), 'w'), indent=1)
+finally:
+    shutil.rmtree(scratch, ignore_errors=True)
